@@ -56,7 +56,13 @@ Example C16_manual_box_nonvacuous :
   wf_closed (snd (brun (bvars0 2) [BNew 0; BInit 0 5; BDel 0]) ++ bfinish (fst (fst (brun (bvars0 2) [BNew 0; BInit 0 5; BDel 0])))) = false.
 Proof. vm_compute. repeat split; reflexivity. Qed.
 
-(* unique_ptr (after the D13 fix: destructor and reset run ~T before freeing) *)
+(* unique_ptr (after the D13 fix: destructor and reset run ~T before freeing).
+   Order inside reset(p) (unique.hpp:63-71, as std::unique_ptr::reset specifies): the new pointer is stored FIRST, the
+   old object is destroyed and freed afterwards.  It is observable through a re-entrant pointee whose destructor resets
+   the unique_ptr that held it: op [PResetNewRe] is that case -- the nested reset sees the NEW pointer (and destroys the
+   new object), then the old object's destruction completes; every object is destroyed once and every block freed once.
+   With the opposite order the nested reset would find the dying object still installed and destroy/free it twice;
+   the harness runs every unique_ptr script also with re-entrant pointees (case type uptrre), registries as oracle. *)
 Theorem C16_unique_ptr_log_wf : forall (esize : N) (n : nat) (ops : list pop),
   wf_closed (snd (prun esize (pstate0 n) ops) ++ pfinish (fst (fst (prun esize (pstate0 n) ops)))) = true.
 Proof. exact unique_ptr_log_wf. Qed.
@@ -71,6 +77,16 @@ Example C16_unique_ptr_nonvacuous :
   (* the log of the code before the D13 fix (free without ~T) is not accepted *)
   wf_closed [EAlloc 1 16; EConstruct (1%nat, 0%nat); EFree 1] = false.
 Proof. vm_compute. split; reflexivity. Qed.
+
+Example C16_unique_ptr_reentrant_nonvacuous :
+  let ops := [PMake 0 5; PResetNewRe 0 6; PGet 0] in
+  snd (prun 32 (pstate0 1) ops) =
+    [EAlloc 1 32; EConstruct (1%nat, 0%nat);
+     EAlloc 2 32; EConstruct (2%nat, 0%nat); EDestroy (2%nat, 0%nat); EFree 2; EDestroy (1%nat, 0%nat); EFree 1] /\
+  snd (fst (prun 32 (pstate0 1) ops)) = [RUnit; RUnit; RNone] /\
+  (* destroy-first order: the nested reset destroys and frees the dying object a second time -- rejected *)
+  wf_closed [EAlloc 1 32; EConstruct (1%nat, 0%nat); EDestroy (1%nat, 0%nat); EFree 1; EDestroy (1%nat, 0%nat); EFree 1] = false.
+Proof. vm_compute. repeat split; reflexivity. Qed.
 
 Theorem C16_unique_memory_log_wf : forall (n : nat) (ops : list mop),
   wf_closed (snd (mrun (mstate0 n) ops) ++ mfinish (fst (fst (mrun (mstate0 n) ops)))) = true.
